@@ -34,7 +34,16 @@ namespace sched {
 
 struct Point { int kind; int nalt; int chosen; uint64_t hash; bool running_enabled; int preempt_before; int dev_before; std::vector<int> alts; bool fresh; };
 
-struct Fiber { void* sp; char* stack; std::function<void()> body; bool finished; uint64_t local_hash; long steps; };
+#ifdef VF_SCHED_PTHREADS
+}  // namespace sched
+#include <pthread.h>
+#include <semaphore.h>
+namespace sched {
+// real threads serialised by a baton (one semaphore per thread): needed where thread-local storage is the subject
+struct Fiber { pthread_t th; sem_t sem; bool joined; void* sp; char* stack; std::function<void()> body; std::function<bool()> blocked_on; bool finished; uint64_t local_hash; long steps; };
+#else
+struct Fiber { void* sp; char* stack; std::function<void()> body; std::function<bool()> blocked_on; bool finished; uint64_t local_hash; long steps; };
+#endif
 
 struct Explorer {
   // client hooks
@@ -51,8 +60,21 @@ struct Explorer {
   std::unordered_map<uint64_t, int> visited;
 
   static Explorer*& self() { static Explorer* e = nullptr; return e; }
-  ~Explorer() { if (self() == this) self() = nullptr; for (auto* f : fibers) { free(f->stack); delete f; } for (char* st : stack_pool) free(st); }
+  ~Explorer() { if (self() == this) self() = nullptr; for (auto* f : fibers) retire(f); for (char* st : stack_pool) free(st); }
   bool hash_last_running() const { return preempt_bound < (1 << 20); }
+#ifdef VF_SCHED_PTHREADS
+  sem_t main_sem; bool main_sem_init = false;
+  static void* thread_entry(void* arg) { Fiber* f = (Fiber*)arg; sem_wait(&f->sem); Explorer* e = self(); f->body(); f->finished = true; e->in_fiber = false; sem_post(&e->main_sem); return nullptr; }
+  void spawn(std::function<void()> body) {
+    if (!main_sem_init) { sem_init(&main_sem, 0, 0); main_sem_init = true; }
+    Fiber* f = new Fiber(); f->stack = nullptr; f->sp = nullptr; f->body = body; f->finished = false; f->joined = false; f->local_hash = 1469598103934665603ULL + fibers.size(); f->steps = 0;
+    sem_init(&f->sem, 0, 0); pthread_create(&f->th, nullptr, &thread_entry, f);
+    fibers.push_back(f);
+  }
+  void to_fiber(int id) { sem_post(&fibers[id]->sem); sem_wait(&main_sem); if (fibers[id]->finished && !fibers[id]->joined) { pthread_join(fibers[id]->th, nullptr); fibers[id]->joined = true; } }
+  void to_main() { Fiber* f = fibers[cur]; sem_post(&main_sem); sem_wait(&f->sem); }
+  void retire(Fiber* f) { if (!f->joined) { fprintf(stderr, "sched: a thread of an abandoned execution cannot be joined\n"); abort(); } sem_destroy(&f->sem); delete f; }
+#else
   static const size_t STACK = 128 * 1024;
   static void fiber_entry() { Explorer* e = self(); int id = e->cur; e->fibers[id]->body(); e->fibers[id]->finished = true; e->in_fiber = false; vf_ctx_switch(&e->fibers[id]->sp, e->main_sp); abort(); }
   void spawn(std::function<void()> body) {
@@ -65,6 +87,10 @@ struct Explorer {
   }
   void to_fiber(int id) { vf_ctx_switch(&main_sp, fibers[id]->sp); }
   void to_main() { Fiber* f = fibers[cur]; vf_ctx_switch(&f->sp, main_sp); }
+  void retire(Fiber* f) { stack_pool.push_back(f->stack); delete f; }
+#endif
+  // a thread that must wait yields with a predicate; it is enabled again only when the predicate holds (evaluated by the scheduler)
+  void yield_blocked(std::function<bool()> pred) { if (!in_fiber) { if (!pred()) { fprintf(stderr, "sched: blocking wait outside the scheduler\n"); abort(); } return; } while (!pred()) { Fiber* f = fibers[cur]; f->blocked_on = pred; f->steps++; in_fiber = false; to_main(); in_fiber = true; f->blocked_on = nullptr; } }
   // ---- called from inside fibres ----
   void yield_point() { if (!in_fiber) return; Fiber* f = fibers[cur]; f->steps++; in_fiber = false; to_main(); in_fiber = true; }
   int yield_env(int n) { if (!in_fiber) return 0; Fiber* f = fibers[cur]; pending_env = n; in_fiber = false; to_main(); in_fiber = true; (void)f; return env_answer; }
@@ -82,14 +108,14 @@ struct Explorer {
 
   // runs one execution following prefix, default choice 0 afterwards
   void run(const std::vector<int>& pre) {
-    for (auto* f : fibers) { stack_pool.push_back(f->stack); delete f; }
+    for (auto* f : fibers) retire(f);
     fibers.clear(); points.clear(); choices.clear(); prefix = &pre; preemptions = 0; deviations = 0; last_running = -1; cur = -1; abort_run = false; pending_env = 0;
     self() = this;
     setup();
     bool deadlock = false, livelock = false;
     while (true) {
-      std::vector<int> enabled; for (size_t i = 0; i < fibers.size(); i++) if (!fibers[i]->finished) enabled.push_back((int)i);
-      if (enabled.empty()) break;
+      std::vector<int> enabled; bool unfinished = false; for (size_t i = 0; i < fibers.size(); i++) if (!fibers[i]->finished) { unfinished = true; if (!fibers[i]->blocked_on || fibers[i]->blocked_on()) enabled.push_back((int)i); }
+      if (enabled.empty()) { if (unfinished) { deadlock = true; deadlocks++; } break; }
       int chosen_thread;
       if (enabled.size() > 1) {
         Point p; p.kind = 0; p.running_enabled = false; p.alts.clear();
@@ -153,6 +179,7 @@ struct Explorer {
 };
 
 inline void point() { if (Explorer::self()) Explorer::self()->yield_point(); }
+inline void wait_until(std::function<bool()> pred) { if (Explorer::self()) Explorer::self()->yield_blocked(pred); }
 inline int env_choice(int n) { return Explorer::self() ? Explorer::self()->yield_env(n) : 0; }
 inline void note(uint64_t v) { if (Explorer::self()) Explorer::self()->note_value(v); }
 
